@@ -935,3 +935,67 @@ pub fn pick(idx: u16, len: usize) -> usize {
     debug_assert!(len > 0);
     ((idx as usize) * len) >> 16
 }
+
+// ---------------------------------------------------------------------------
+// Counting allocator (per-thread): lets a property bound what a library call allocates.
+
+pub struct CountingAlloc;
+
+thread_local! {
+    static ALLOC_CUR: Cell<isize> = const { Cell::new(0) };
+    static ALLOC_PEAK: Cell<isize> = const { Cell::new(0) };
+    static ALLOC_MAX_SINGLE: Cell<usize> = const { Cell::new(0) };
+}
+
+unsafe impl std::alloc::GlobalAlloc for CountingAlloc {
+    unsafe fn alloc(&self, layout: std::alloc::Layout) -> *mut u8 {
+        alloc_note(layout.size() as isize);
+        std::alloc::System.alloc(layout)
+    }
+    unsafe fn dealloc(&self, ptr: *mut u8, layout: std::alloc::Layout) {
+        alloc_note(-(layout.size() as isize));
+        std::alloc::System.dealloc(ptr, layout)
+    }
+    unsafe fn alloc_zeroed(&self, layout: std::alloc::Layout) -> *mut u8 {
+        alloc_note(layout.size() as isize);
+        std::alloc::System.alloc_zeroed(layout)
+    }
+    unsafe fn realloc(&self, ptr: *mut u8, layout: std::alloc::Layout, new_size: usize) -> *mut u8 {
+        alloc_note(new_size as isize - layout.size() as isize);
+        std::alloc::System.realloc(ptr, layout, new_size)
+    }
+}
+
+fn alloc_note(delta: isize) {
+    let _ = ALLOC_CUR.try_with(|c| {
+        let v = c.get() + delta;
+        c.set(v);
+        if delta > 0 {
+            let _ = ALLOC_PEAK.try_with(|p| {
+                if v > p.get() {
+                    p.set(v)
+                }
+            });
+            let _ = ALLOC_MAX_SINGLE.try_with(|m| {
+                if delta as usize > m.get() {
+                    m.set(delta as usize)
+                }
+            });
+        }
+    });
+}
+
+/// Start measuring allocations made by the current thread.
+pub fn alloc_track_start() {
+    ALLOC_CUR.with(|c| c.set(0));
+    ALLOC_PEAK.with(|c| c.set(0));
+    ALLOC_MAX_SINGLE.with(|c| c.set(0));
+}
+/// Peak of (bytes allocated - bytes freed) by this thread since `alloc_track_start`.
+pub fn alloc_peak() -> usize {
+    ALLOC_PEAK.with(|c| c.get().max(0) as usize)
+}
+/// Largest single allocation request by this thread since `alloc_track_start`.
+pub fn alloc_max_single() -> usize {
+    ALLOC_MAX_SINGLE.with(|c| c.get())
+}
